@@ -25,10 +25,14 @@ def check(prop, tier):
     return r.returncode, sigs
 def main():
     which = sys.argv[1]; tier = sys.argv[2] if len(sys.argv) > 2 else 'quick'
+    only = sys.argv[3] if len(sys.argv) > 3 else None   # e.g. 'd' = only ids ending in d; results file not rewritten
     rows = []
     if which == 'seeded':
         for d in sorted(glob.glob(f'{ROOT}/seeded/*/')):
-            id = os.path.basename(d.rstrip('/')); meta = json.load(open(d + 'meta.json')); prop = meta['breaks_property']
+            id = os.path.basename(d.rstrip('/'))
+            if only and not id.endswith(only):
+                continue
+            meta = json.load(open(d + 'meta.json')); prop = meta['breaks_property']
             if not apply(d + 'patch.diff'):
                 rows.append((id, prop, 'PATCH DOES NOT APPLY', [])); revert(); continue
             try:
@@ -53,6 +57,8 @@ def main():
                 rows.append((os.path.basename(patch)[:60], prop, 'DETECTED' if rc == 1 else f'MISSED (rc={rc})', sigs[:3]))
                 print(rows[-1], flush=True)
         out = f'{ROOT}/mutants/RESULTS.md'
+    if only:
+        return
     with open(out, 'w') as f:
         f.write(f'# Detection matrix ({which}, tier {tier})\n\n| change | property | outcome | first signatures |\n|---|---|---|---|\n')
         for r in rows:
